@@ -201,6 +201,9 @@ static void refuse_to_patch(std::ostream& out, std::ios_base::openmode mode, con
         RejectWriter reject_writer(patch, file, options.reject_format);
         for (const auto& hunk : patch.hunks)
             reject_writer.write_reject_file(hunk);
+
+        // Closing the file would flush it as well, but can not tell us that it failed.
+        file.flush();
     }
     out << '\n';
 }
